@@ -49,7 +49,13 @@ CFG = {
         "distinct between goroutines; decoders, UnmarshalTOML and encode-then-decode of Duration, JsInt64, JsUInt64, the three "
         "time wrappers, JsByte, hex), seq = the same inputs interleaved on one goroutine (A, B, A, ...); the functions are "
         "specified as pure, so every call must give the model's result for its own input under every schedule, and the case "
-        "(an ordinary CDec / CEnc / CToml with the up to five most frequent distinct results) is decided in Coq. A decode case is non-trivial when the token "
+        "(an ordinary CDec / CEnc / CToml with the up to five most frequent distinct results) is decided in Coq. Zone classes: the "
+        "time-carrying round trips (Value->Scan of UnixStamp / SQLTime2Unix / Unix2Time / UnixNano2Time, Scan of a time, the JSON "
+        "time wrappers) are repeated with the process zone time.Local set (embedded time/tzdata) to UTC, America/New_York, "
+        "Europe/Berlin, Australia/Lord_Howe and Asia/Shanghai: usual boundaries, every stamp at -3600..+3600 s around each DST "
+        "transition of 2021, 2024 and one seed-chosen year (thorough: eight more years), and 10-minute sweeps over +-3 h as "
+        "histories; the model is zone-free, so the instant must survive in every zone; inputs run one after the other and the "
+        "parallel classes never carry a zone. A decode case is non-trivial when the token "
         "reached the wrapper through at least one JSON library path or was decoded to a value; every encode/round-trip, Scan, "
         "Value and string-typed TOML case is non-trivial. distinct = distinct Coq case term (input + observation)."
     ),
